@@ -92,7 +92,7 @@ func (c *runner) exec(k *kase) {
 	}
 }
 
-var idxRe = regexp.MustCompile(`\\[\\d+\\]`)
+var idxRe = regexp.MustCompile(`\[\d+\]`)
 
 // report turns the collected failures into violations. When every case of a proof system fails in the same way the
 // finding does not depend on the witness/session class and is reported once; otherwise one finding per value class.
